@@ -295,6 +295,11 @@ def _run(ctx):
         logarithm, base, prefix = families[fname]
         rname, ref, kk, alts = rng.choice(refs)
         x0 = Decimal(repr(round(rng.uniform(-30, 40), 1)))
+        if k % 2:
+            # a reference nobody has used yet in this process (1.001, 1.002, ... of the usual one): the coarse reading
+            # below is then the very first thing that ever happens to this logarithmic unit
+            ref = type(ref)(ref.magnitude * (1000 + k + 1000 * ctx.shard) / 1000, ref.unit)
+            ctx.count("levels_of_a_unit_first_used_under_a_coarse_context")
         with lib():
             lu = logarithm[ref]
             lv = x0 * lu
